@@ -116,3 +116,17 @@ package owa
 //@             (*result)[k].Criterion == (*criteria)[k] && (*result)[k].Weight == (*weights)[(*criteria)[k].Id]
 //@   loop 1 invariant [ctx] fresh(result)
 //@   loop 1 invariant [so_far] forall k int :: 0 <= k && k < iter && k < len(result) ==> result[k].Criterion == (*criteria)[k] && result[k].Weight == (*weights)[(*criteria)[k].Id]
+
+// a weight for every declared criterion and no other (count checked), kept in ascending order of weight
+//@ func (*OWAPreferenceFunc).ParseParams
+//@   property C03 C20 C07
+//@   ensures [one_weight_per_criterion_ascending] typeis(result, owaParams) && result.(owaParams).Weights != nil
+//@             && forall i int, j int :: 0 <= i && i < j && j < len(*result.(owaParams).Weights) ==> (*result.(owaParams).Weights)[i].Weight <= (*result.(owaParams).Weights)[j].Weight
+//@ func (*OWAPreferenceFunc).Identifier
+//@   property C20
+//@   nopanic
+//@   ensures [name] result == "owa"
+//@ func (*OWAPreferenceFunc).MethodParameters
+//@   property C20
+//@   nopanic
+//@   ensures [schema_of_the_weights_parameter] typeis(result, model.WeightType)
